@@ -113,6 +113,7 @@ func (j *cacheJanitor[MetadataT]) cleanExpiredEntries() {
 		keysToRemove = append(keysToRemove, key)
 	}
 
+	verifYield("janitor.afterScan")
 	for _, key := range keysToRemove {
 		slog.Info("Removing expired cache entry for key", "key", key.Hex)
 
